@@ -61,6 +61,7 @@ func judgeMain(args []string) {
 	st := newStats()
 	ck := &checker{out: out, st: st, blamed: map[string]bool{}}
 	seen := 0
+	failed := map[int]bool{} // traces whose first failing call was reported
 	err = vh.EachLine(args[1], func(line []byte) error {
 		var e expRecord
 		if er := json.Unmarshal(line, &e); er != nil {
@@ -97,8 +98,12 @@ func judgeMain(args []string) {
 			return nil
 		}
 		for _, f := range fails {
+			if failed[o.T] {
+				break // later calls of the trace build on the wrong result
+			}
+			failed[o.T] = true
 			st.Mismatches++
-			vh.Mismatch(out, vh.M{"engine": "scalar", "op": "trace", "what": f.What, "type": o.Inst.Type, "mode": "recorded"},
+			vh.Mismatch(out, vh.M{"engine": "scalar", "op": o.Op, "what": f.What, "type": o.Inst.Type, "mode": "recorded"},
 				vh.M{"trace": o.T, "event": o.K, "program": o.Prog, "inst": o.Inst, "x": o.X, "slot": []int{f.I, f.J},
 					"cmp": f.Info, "expected_terms": json.RawMessage(line)})
 			break
